@@ -323,6 +323,7 @@ def o_order(cimp, ctx):
     # been handled the tasks it created are part of the graph, and a task reading what one of them writes is
     # handled after it
     order = [t for t, _ in cimp["reports"]]
+    rep = dict(cimp["reports"])
     tasks = ctx["op"]["tasks"]
     reads, writes = reads_writes(tasks, set(order))
     gens_of = {}
@@ -335,7 +336,8 @@ def o_order(cimp, ctx):
             if not (20000 <= u < 30000 or 40000 <= u < 50000) or not (writes.get(u, set()) & reads.get(x, set())):
                 continue
             p = (u % 20000) // 100
-            made_before = [g for g in gens_of.get(p, []) if g in order[:xi]]
+            # (a generator that failed has created nothing: F25)
+            made_before = [g for g in gens_of.get(p, []) if g in order[:xi] and rep.get(g) == O["SUCCESS"]]
             if made_before and x not in made_before:
                 probs.append((f"task {x} was handled before generated task {u}, whose product it reads, although generator {made_before[0]} had already created it", ()))
     return probs
